@@ -332,7 +332,7 @@ func c06Topo(r *mc.Report, n int, orderDev int, shard, nshards int) {
 func init() {
 	mc.Register(&mc.Check{
 		Prop:        "C06",
-		Rule:        "[rebuild-after-edit] every history to depth 5 (quick) / 6 (thorough) over {14 Add variants (singleton / transient / scoped consumers with optional, required, keyed, group and keyed-optional dependencies; singleton and scoped providers, keyed providers, group members, unrelated services), Remove x3, RemoveKeyed, Build (<=2)}: the verdict of every Build of the edited collection equals the verdict of a FRESH collection holding the surviving registrations (differential oracle), a successful Build hands no scoped instance to a singleton / transient and leaves no registered identity unresolvable. container: all digraphs on <=3 services x all per-target forms {plain, keyed, group} x 2-4 lifetime patterns (each also with every dependency declared optional), the 64 DAGs (+ sampled-by-mask cyclic sets) on 4 services x uniform forms, and 12 configurations with a two-member group whose members have dependencies; (plain-form sets also with one / every dependency declared twice); each x ALL permutations of the registration calls (intra-group order preserved) x canonical and reversed base map-iteration order, plus every single non-identity permutation of one map range during Build (order deviation 1; 2 in thorough for n<=3): one verdict class and one canonical object graph per configuration (also when the same collection is Built a second time), and every singleton constructed after the singletons it depends on (group edges included). Graph component: every labelled DAG on <=4 nodes (543) x both base orders (and once with every node's first dependency declared twice) x order deviation 1 (2 thorough): TopologicalSort lists every node once, dependencies first. distinct = (size, forms, verdict) classes.",
+		Rule:        "container: all digraphs on <=3 services x all per-target forms {plain, keyed, group} x 2-4 lifetime patterns (each also with every dependency declared optional), the 64 DAGs (+ sampled-by-mask cyclic sets) on 4 services x uniform forms, and 12 configurations with a two-member group whose members have dependencies; (plain-form sets also with one / every dependency declared twice); each x ALL permutations of the registration calls (intra-group order preserved) x canonical and reversed base map-iteration order, plus every single non-identity permutation of one map range during Build (order deviation 1; 2 in thorough for n<=3): one verdict class and one canonical object graph per configuration (also when the same collection is Built a second time), and every singleton constructed after the singletons it depends on (group edges included). Graph component: every labelled DAG on <=4 nodes (543) x both base orders (and once with every node's first dependency declared twice) x order deviation 1 (2 thorough): TopologicalSort lists every node once, dependencies first. distinct = (size, forms, verdict) classes. Rebuild after edit: every history to depth 5 (quick) / 6 (thorough) over {14 Add variants (singleton / transient / scoped consumers with optional, required, keyed, group and keyed-optional dependencies; singleton and scoped providers, keyed providers, group members, unrelated services), Remove x3, RemoveKeyed, Build (<=2)}: the verdict of every Build of the edited collection equals the verdict of a FRESH collection holding the surviving registrations (differential oracle), a successful Build hands no scoped instance to a singleton / transient and leaves no registered identity unresolvable.",
 		Assume:      []string{"map iteration order is a controlled choice: every `range` over a map in godi is redirected to the explorer", "repeated builds with different hash seeds are subsumed by the enumerated iteration orders"},
 		MinOutcomes: 6,
 		Jobs: func(tier string) []mc.Job {
